@@ -1,4 +1,4 @@
-import GuppyVerif.Lemmas.C03Stmt
+import GuppyVerif.Lemmas.C03Top
 /-! # C03 helper lemmas: every block has at most two successors, and two only with a branch predicate -/
 namespace GuppyVerif.Builder
 open GuppyVerif.Surface
@@ -284,4 +284,184 @@ theorem shape_bld (e : Expr) : ShapeE e := by
       have kv : AllOk (itV c x y b σ).2.2 := ihy .val (σ.len + 1) (itU c x b σ).2.2 (by omega) (by rw [heb2]) ku
       exact allOk_mergeSt kv _ _ (by omega) gv.lt huv (by rw [hvu]; exact gu.opn) gv.opn
 
+theorem shape_build (s : Stmt) : ∀ (prev b : Nat) (J : Jumps) (σ : BState), noFor s = true → b < σ.len →
+    (σ.blk b).succs = [] → AllOk σ → AllOk (build s prev (some b) J σ).1 := by
+  induction s with
+  | nil => intro prev b J σ _ _ _ h; exact h
+  | pass => intro prev b J σ _ _ _ h; exact h
+  | cons s rest ihs ihr =>
+    intro prev b J σ hn hb ho h
+    simp only [noFor, Bool.and_eq_true] at hn
+    simp only [build, ensure_some]
+    have g1 := build_good s b b J σ hn.1 hb ho
+    have k1 := ihs b b J σ hn.1 hb ho h
+    cases hr : (build s b (some b) J σ).2 with
+    | some b1 =>
+      obtain ⟨_, c2, c3⟩ := g1.cur b1 hr
+      exact ihr b b1 J _ hn.2 c2 c3 k1
+    | none =>
+      by_cases hnil : rest = .nil
+      · subst hnil; simp only [build]; exact k1
+      · rw [build_ensure rest hnil, ensure_none]
+        have hl1 := g1.touch.len
+        exact ihr b _ J _ hn.2 (by simp) (by rw [blk_dummyLink_other _ _ _ _ (by omega), blk_newBB_new])
+          (allOk_dummyLink (allOk_newBB k1) _ _)
+  | assign x e =>
+    intro prev b J σ _ hb ho h
+    simp only [build, ensure_some, buildE]
+    exact allOk_addStmt (shape_bld e .val b σ hb ho h) _ _
+  | aug x op e =>
+    intro prev b J σ _ hb ho h
+    simp only [build, ensure_some, buildE]
+    exact allOk_addStmt (shape_bld e .val b σ hb ho h) _ _
+  | expr e =>
+    intro prev b J σ _ hb ho h
+    simp only [build, ensure_some, buildE]
+    cases isTmpVar (bld e .val b σ).1
+    · exact allOk_addStmt (shape_bld e .val b σ hb ho h) _ _
+    · exact shape_bld e .val b σ hb ho h
+  | brk =>
+    intro prev b J σ _ hb ho h
+    simp only [build, ensure_some]
+    split
+    · exact allOk_link h _ ho
+    · exact h
+  | cont =>
+    intro prev b J σ _ hb ho h
+    simp only [build, ensure_some]
+    split
+    · exact allOk_link h _ ho
+    · exact h
+  | ret e =>
+    intro prev b J σ _ hb ho h
+    simp only [build, ensure_some, buildE]
+    have g : GoodV σ b (bld e .val b σ).2.1 (bld e .val b σ).2.2 := bld_good e .val b σ hb ho
+    exact allOk_link (allOk_addStmt (shape_bld e .val b σ hb ho h) _ _) _
+      (by rw [blk_addStmt_same _ _ _ g.lt]; exact g.opn)
+  | ret0 =>
+    intro prev b J σ _ hb ho h
+    simp only [build, ensure_some]
+    exact allOk_link (allOk_addStmt h _ _) _ (by rw [blk_addStmt_same _ _ _ hb]; exact ho)
+  | ite c t e iht ihe =>
+    intro prev b J σ hn hb ho h
+    simp only [noFor, Bool.and_eq_true] at hn
+    obtain ⟨t1, hl1, htb, heb, hb', ho', _⟩ := itS1_facts c hb ho
+    have k1 : AllOk (itS1 c b σ) := shape_bld c (.br σ.len (σ.len + 1)) b _ hb' ho' (allOk_newBB (allOk_newBB h))
+    have gt := build_good t σ.len σ.len J (itS1 c b σ) hn.1 (by omega) (by rw [htb])
+    have kt := iht σ.len σ.len J (itS1 c b σ) hn.1 (by omega) (by rw [htb]) k1
+    have hlt := gt.touch.len
+    have hebc := gt.touch.frame (σ.len + 1) (by omega) (by omega)
+    have heb2 : ((build t σ.len (some σ.len) J (itS1 c b σ)).1.blk (σ.len + 1)).succs = [] := by
+      rw [core_succs hebc, heb]
+    have ge := build_good e (σ.len + 1) (σ.len + 1) J _ hn.2 (by omega) heb2
+    have ke := ihe (σ.len + 1) (σ.len + 1) J _ hn.2 (by omega) heb2 kt
+    have hle := ge.touch.len
+    rw [build_ite_eq]
+    cases hrt : (build t σ.len (some σ.len) J (itS1 c b σ)).2 with
+    | none => simp only [iteFin, hrt]; exact ke
+    | some a =>
+      obtain ⟨a1, a2, a3⟩ := gt.cur a hrt
+      have hae : a ≠ σ.len + 1 := by rcases a1 with h | h <;> omega
+      have hca := ge.touch.frame a a2 hae
+      cases hre : (build e (σ.len + 1) (some (σ.len + 1)) J (build t σ.len (some σ.len) J (itS1 c b σ)).1).2 with
+      | none => simp only [iteFin, hrt, hre]; exact ke
+      | some b2 =>
+        obtain ⟨d1, d2, d3⟩ := ge.cur b2 hre
+        have hab : a ≠ b2 := by rcases d1 with h | h <;> omega
+        simp only [iteFin, hrt, hre, newBB2, fst_newBB]
+        exact allOk_link (allOk_link (allOk_newBB ke) _ (by
+            rw [blk_newBB_old _ _ (by omega), core_succs hca]; exact a3)) _ (by
+            rw [blk_link_other _ _ _ _ (Ne.symm hab), blk_newBB_old _ _ d2]; exact d3)
+  | «while» c body ih =>
+    intro prev b J σ hn hb ho h
+    simp only [noFor] at hn
+    obtain ⟨l0, _, _, fh, _, _, _⟩ := whS0_facts hb ho
+    obtain ⟨t1, hl1, fb, fbb, ftl, t01⟩ := whS1_facts c hb ho
+    have k0 : AllOk (whS0 b σ) := by
+      unfold whS0
+      exact allOk_newBB (allOk_newBB (allOk_link (allOk_newBB h) _ (by rw [blk_newBB_old _ _ hb]; exact ho)))
+    have k1 : AllOk (whS1 c b σ) := shape_bld c (.br (σ.len + 1) (σ.len + 2)) σ.len (whS0 b σ) (by omega) (by rw [fh]) k0
+    have gb : GoodS (whS1 c b σ) (σ.len + 1) (whRB c body b J σ) :=
+      build_good body (σ.len + 1) (σ.len + 1) (whJ J σ) (whS1 c b σ) hn (by omega) (by rw [fbb])
+    have kb : AllOk (whRB c body b J σ).1 := ih (σ.len + 1) (σ.len + 1) (whJ J σ) (whS1 c b σ) hn (by omega) (by rw [fbb]) k1
+    rw [build_while_eq]
+    cases hrb : (whRB c body b J σ).2 with
+    | none => simp only [whFin, hrb]; exact kb
+    | some e =>
+      obtain ⟨_, _, e3⟩ := gb.cur e hrb
+      simp only [whFin, hrb]
+      exact allOk_link kb _ e3
+  | «for» x e body ih => intro prev b J σ hn; simp [noFor] at hn
+  | forFrom x n m body ih => intro prev b J σ hn; simp [noFor] at hn
+
+theorem okB_of_core {A B : Block} (h : A.core = B.core) (hB : okB B) : okB A := by
+  unfold okB at hB ⊢
+  rw [core_succs h, core_pred h]; exact hB
+
+theorem okB_prune (bl : List Block) (h : ∀ i, okB (blkL bl i)) (i : Nat) : okB (blkL (prune bl) i) := by
+  by_cases hi : i < bl.length
+  · rw [blkL_prune bl i hi]
+    have := h i
+    unfold okB at this ⊢
+    simp only
+    split
+    · exact this
+    · have hle : ((blkL bl i).succs.filter fun s => !(blkL bl s).reach).length ≤ (blkL bl i).succs.length :=
+        List.length_filter_le _ _
+      refine ⟨by omega, fun h2 => this.2 (by omega)⟩
+  · have : blkL (prune bl) i = {} := by
+      simp [blkL, List.getElem?_eq_none (show (prune bl).length ≤ i by rw [length_prune]; omega)]
+    rw [this]; exact okB_empty
+
+/-- **every block of a built CFG has at most two successors, and a block with two successors has a branch
+    predicate** -/
+theorem buildCfg_shape {p : Stmt} {rn : Bool} {g : Cfg} (hn : noFor p = true) (hb : buildCfg rn p = .ok g) :
+    ∀ i, okB (blkL g.blocks i) := by
+  have h02 : (0 : Nat) < initState.len := by decide
+  have ho0 : (initState.blk 0).succs = [] := by decide
+  have hinit : AllOk initState := by
+    intro i
+    by_cases h0 : i = 0
+    · subst h0; exact okB_empty
+    · by_cases h1 : i = 1
+      · subst h1; exact okB_empty
+      · rw [empty_of_ge _ (by show 2 ≤ i; omega)]; exact okB_empty
+  have gr := build_good p 0 0 ⟨1, none, none⟩ initState hn h02 ho0
+  have kr := shape_build p 0 0 ⟨1, none, none⟩ initState hn h02 ho0 hinit
+  simp only [buildCfg] at hb
+  generalize build p 0 (some 0) ⟨1, none, none⟩ initState = r at *
+  split at hb
+  · cases hb
+  split at hb
+  · cases hb
+  cases hreach : reachable r.1.blocks with
+  | none => rw [hreach] at hb; cases hb
+  | some rs =>
+    rw [hreach] at hb
+    simp only at hb
+    have kR : AllOk ({ r.1 with blocks := setReach rs r.1.blocks } : BState) :=
+      fun i => okB_of_core (blk_setReach_state r.1 rs i).1 (kr i)
+    cases hr2 : r.2 with
+    | none =>
+      rw [hr2] at hb
+      simp only [Except.ok.injEq] at hb
+      subst hb
+      exact okB_prune _ kR
+    | some fin =>
+      rw [hr2] at hb
+      simp only at hb
+      obtain ⟨_, f2, f3⟩ := gr.cur fin hr2
+      have kL : AllOk (link fin 1 ({ r.1 with blocks := setReach rs r.1.blocks } : BState)) :=
+        allOk_link kR 1 (by rw [core_succs (blk_setReach_state r.1 rs fin).1]; exact f3)
+      split at hb
+      · split at hb
+        · simp only [Except.ok.injEq] at hb
+          subst hb
+          exact okB_prune _ (fun i => okB_of_core (core_upd_reach _ i 1).1 (kL i))
+        · cases hb
+      · simp only [Except.ok.injEq] at hb
+        subst hb
+        exact okB_prune _ kL
+
 end GuppyVerif.Builder
+
